@@ -1615,7 +1615,7 @@ class Entity(Instance):
                 "library ieee;",
                 "use ieee.std_logic_1164.all;",
                 "use ieee.numeric_std.all;",
-                *extern_libraries,
+                *sorted(extern_libraries),
             ]
         )
 
